@@ -28,7 +28,7 @@ ASSUMPTIONS = ['python == / hash on the generated elements (None, ints, quarter 
                'python dict semantics: insertion order, d[k]=v overwrites in place or appends, dict(**{...}) and update() are successive assignments',
                'kwargs_support(f)(**params) passes exactly the declared arguments by name and raises TypeError when one is missing; generated functions are lambda args: c + 1*a1 + 2*a2 + ... and never declare an argument named key',
                'attribute access (getattr/setattr/delattr = item access, AttributeError for KeyError) and in-place writes are modelled on a heap of handles (DAHeap); attribute names are identifiers without a leading underscore that are not attributes of dict; object identity beyond handles (aliasing of values) is not modelled',
-               'tuple paths (d - (a, b)), dotted keys, self-referential callables and relabelling onto an existing key are outside the statement and not generated']
+               'tuple paths (d - (a, b)), dotted keys and relabelling onto an existing key are outside the statement and not generated; self-referential callables are outside the acyclic statement and generated for correspondence only (call-selfloop)']
 
 ELEMS = [None, 0, 1, 2, 3, 4, 5, 1.0, 2.0, 2.5, 'a', 'b', 'c', '', (1, 2), (1, 'a'), (2.0, 1), ()]
 KEYS = ['a', 'b', 'c', 'd', 'e', 'x', 'y']
@@ -242,6 +242,24 @@ def gen_call(rng):
     return dict(tag='call-' + kind, lines=[call_line(env, kws)])
 
 
+def gen_call_selfloop(rng):
+    """correspondence only (outside the `Acyclic` theorems, inside `call_keyword_order_independent`): one callable also reads its OWN key.
+    Code and model agree: it is never 'independent'; left alone at the end it is evaluated on the old value of its key (TypeError if there
+    is none), with another callable still pending the loop raises ValueError."""
+    base = rng.sample(['a', 'b', 'c'], rng.choice([1, 2, 3]))
+    env = {k: rng.randrange(-3, 6) for k in base}
+    derived = rng.sample(['p', 'q', 'r', 's'], rng.choice([1, 1, 2, 3, 4]))
+    if rng.random() < 0.5:
+        derived[rng.randrange(len(derived))] = rng.choice(base)          # the self-reading key already has a value
+        derived = list(dict.fromkeys(derived))
+    deps = rand_graph(rng, derived, base, False)
+    k = rng.choice([d for d in derived if d in base] or derived)
+    deps[k] = deps[k] + [k]
+    kws = [(d, (rng.randrange(-2, 4), deps[d])) for d in derived]
+    rng.shuffle(kws)
+    return dict(tag='call-selfloop', lines=[call_line(env, kws)])
+
+
 def all_graphs(n):
     """every dependency graph without self loops on n derived keys p,q,.. (each may also read the base key a)"""
     keys = ['p', 'q', 'r', 's'][:n]
@@ -267,6 +285,8 @@ def generate(rng, tier):
     n = 500 if tier == 'quick' else 12000
     for _ in range(n):
         yield gen_call(rng)
+    for _ in range(n // 5):
+        yield gen_call_selfloop(rng)
     # exhaustive: all graphs on <= 3 (quick) / <= 4 (thorough) derived keys in every keyword order
     for m in ([1, 2, 3] if tier == 'quick' else [1, 2, 3, 4]):
         for keys, deps in all_graphs(m):
